@@ -30,12 +30,14 @@ struct Res {
    std::vector<double> v;
    std::string txt;
    std::string exc;
+   std::string argchg;   // set by an op when an evaluation changed the (const) model it was given; never equal to a reference
    bool same(const Res& o) const {
-      return v.size() == o.v.size() && (v.empty() || std::memcmp(v.data(), o.v.data(), v.size()*sizeof(double)) == 0)
+      return argchg.empty() && o.argchg.empty() && v.size() == o.v.size() && (v.empty() || std::memcmp(v.data(), o.v.data(), v.size()*sizeof(double)) == 0)
          && txt == o.txt && exc == o.exc;
    }
    std::string diff(const Res& o) const {
       std::ostringstream s;
+      if (!argchg.empty() || !o.argchg.empty()) s << "ARGUMENT CHANGED: " << argchg << o.argchg << " ";
       if (exc != o.exc) s << "exception '" << exc << "' vs '" << o.exc << "' ";
       if (v.size() != o.v.size()) s << "size " << v.size() << " vs " << o.v.size();
       else for (size_t i = 0; i < v.size(); i++) if (std::memcmp(&v[i], &o.v[i], 8)) { char b[96]; std::snprintf(b, sizeof b, "v[%zu]: %a vs %a", i, v[i], o.v[i]); s << b; break; }
@@ -154,9 +156,26 @@ inline void eval_thdm(const THDM& m, Res& r) {
    pushm(r, m.get_ylh()); pushm(r, m.get_yuHp()); pushm(r, m.get_ydA());
 }
 template <class M> inline std::string text(const M& m) { std::ostringstream s; s << m; return s.str(); }
+// everything observable of a model, including what hangs off it on the heap (problem / warning lists): the byte image of
+// an object does not change when an evaluation writes through a pointer member that a copy shares with its source
+inline std::string deep(const MSSMNoFV_onshell& m) {
+   return text(m) + "|P" + (m.get_problems().have_problem() ? "1:" : "0:") + m.get_problems().get_problems()
+      + "|W" + (m.get_problems().have_warning() ? "1:" : "0:") + m.get_problems().get_warnings();
+}
+inline std::string deep(const THDM& m) { return text(m); }
+// runs f(m, r) and records in r.argchg if the model given to it is observably different afterwards (also when f throws)
+template <class M, class F> inline void preserving(const M& m, Res& r, const char* what, F f) {
+   const std::string d0 = deep(m);
+   struct G { const M& m; const std::string& d0; Res& r; const char* what;
+      ~G() { try { if (deep(m) != d0) r.argchg += std::string(what) + " changed its const model argument; "; } catch (...) { r.argchg += "deep() threw; "; } } } g{m, d0, r, what};
+   f(m, r);
+}
+inline void eval_mssm_p(const MSSMNoFV_onshell& m, Res& r) { preserving(m, r, "eval_mssm", [](const MSSMNoFV_onshell& x, Res& y) { eval_mssm(x, y); }); }
+inline void eval_thdm_p(const THDM& m, Res& r) { preserving(m, r, "eval_thdm", [](const THDM& x, Res& y) { eval_thdm(x, y); }); }
 
 // shared const models for the read-only ops (constructed by the harness before any thread starts)
 extern MSSMNoFV_onshell* shared_mssm[2];
+extern MSSMNoFV_onshell* shared_edge[2];   // see O12
 extern THDM* shared_thdm[2];
 extern std::string slha_text[5];
 
@@ -165,11 +184,11 @@ struct Op { const char* name; OpFn fn; bool uses_shared; };
 
 #define GUARDED(body) try { body } catch (const gm2calc::Error& e) { r.exc = e.what(); } catch (const std::exception& e) { r.exc = std::string("std:") + e.what(); }
 
-inline void O1(int p, Res& r) { GUARDED( MSSMNoFV_onshell m = mssm_gm2calc(p); eval_mssm(m, r); r.txt = text(m); ) }
-inline void O2(int p, Res& r) { GUARDED( THDM m = thdm_build(p); eval_thdm(m, r); r.txt = text(m); ) }
-inline void O3(int p, Res& r) { GUARDED( MSSMNoFV_onshell m = mssm_slha(p); eval_mssm(m, r); r.txt = text(m) + m.get_problems().get_warnings() + m.get_problems().get_problems(); ) }
-inline void O4(int p, Res& r) { GUARDED( eval_mssm(*shared_mssm[p], r); MSSMNoFV_onshell c(*shared_mssm[p]); Res rc; eval_mssm(c, rc); r.v.insert(r.v.end(), rc.v.begin(), rc.v.end()); ) }
-inline void O5(int p, Res& r) { GUARDED( eval_thdm(*shared_thdm[p], r); THDM c(*shared_thdm[p]); Res rc; eval_thdm(c, rc); r.v.insert(r.v.end(), rc.v.begin(), rc.v.end()); ) }
+inline void O1(int p, Res& r) { GUARDED( MSSMNoFV_onshell m = mssm_gm2calc(p); eval_mssm_p(m, r); r.txt = text(m); ) }
+inline void O2(int p, Res& r) { GUARDED( THDM m = thdm_build(p); eval_thdm_p(m, r); r.txt = text(m); ) }
+inline void O3(int p, Res& r) { GUARDED( MSSMNoFV_onshell m = mssm_slha(p); eval_mssm_p(m, r); r.txt = text(m) + m.get_problems().get_warnings() + m.get_problems().get_problems(); ) }
+inline void O4(int p, Res& r) { GUARDED( eval_mssm_p(*shared_mssm[p], r); MSSMNoFV_onshell c(*shared_mssm[p]); Res rc; eval_mssm_p(c, rc); r.argchg += rc.argchg; r.v.insert(r.v.end(), rc.v.begin(), rc.v.end()); ) }
+inline void O5(int p, Res& r) { GUARDED( eval_thdm_p(*shared_thdm[p], r); THDM c(*shared_thdm[p]); Res rc; eval_thdm_p(c, rc); r.argchg += rc.argchg; r.v.insert(r.v.end(), rc.v.begin(), rc.v.end()); ) }
 inline void O6(int p, Res& r) {
    const double a = p ? 0.37 : 2.4, b = p ? 1.9 : 0.61, c = p ? 5.5 : 0.052;
    push(r, Phi(a, b, c)); push(r, Phi(c, c, a)); push(r, Iabc(a, b, c)); push(r, Iabc(a, a, c)); push(r, f_PS(a)); push(r, f_PS(c)); push(r, f_S(b));
@@ -211,7 +230,7 @@ inline void O9(int p, Res& r) {
    GUARDED(
       MSSMNoFV_onshell m(*shared_mssm[p]); m.convert_to_non_tan_beta_resummed();
       push(r, calculate_amu_1loop_non_tan_beta_resummed(*shared_mssm[p])); push(r, calculate_amu_2loop_non_tan_beta_resummed(*shared_mssm[p]));
-      eval_mssm(m, r); r.txt = text(m);
+      eval_mssm_p(m, r); r.txt = text(m);
    )
 }
 
@@ -277,6 +296,40 @@ inline void O11(int p, Res& r) {
    }
 }
 
+// O12: MSSM points whose tan(beta)-resummed spectrum is healthy while the spectrum computed WITHOUT resummation (tree-level
+// Yukawa couplings) has a stau tachyon (3.5 % window in mu tan(beta)): the *_non_tan_beta_resummed functions work on an
+// internal copy of their const argument and flag the tachyon there.  Nothing of that may reach the caller's model (its
+// problem list included), a copy of it, or a later call; p = 0 without, p = 1 with force-output.  Shared model: read-only use.
+inline MSSMNoFV_onshell mssm_edge(int p) {
+   MSSMNoFV_onshell m; const Eigen::Matrix<double,3,3> U = Eigen::Matrix<double,3,3>::Identity();
+   mssm_sm(m, 0); m.do_force_output(p != 0);
+   m.set_TB(10); m.set_Ae(1, 1, 0); m.set_Mu(p ? 5312.5 : 5250); m.set_MassB(150); m.set_MassWB(300); m.set_MassG(1000);
+   m.set_mq2(500. * 500 * U); m.set_ml2(300. * 300 * U); m.set_md2(500. * 500 * U); m.set_mu2(500. * 500 * U); m.set_me2(300. * 300 * U);
+   m.set_Au(2, 2, 0); m.set_Ad(2, 2, 0); m.set_Ae(2, 2, 0); m.set_MA0(1500); m.set_scale(454.7);
+   m.calculate_masses();
+   return m;
+}
+inline void edge_calls(const MSSMNoFV_onshell& m, Res& r, const char* tag) {
+   const std::string t(tag);
+   preserving(m, r, "non-resummed evaluation", [&](const MSSMNoFV_onshell& x, Res& y) {
+      sub(y, (t + "1Lnr").c_str(), [&] { push(y, calculate_amu_1loop_non_tan_beta_resummed(x)); });
+      sub(y, (t + "2Lnr").c_str(), [&] { push(y, calculate_amu_2loop_non_tan_beta_resummed(x)); });
+      sub(y, (t + "fsfnr").c_str(), [&] { push(y, amu2LFSfapprox_non_tan_beta_resummed(x)); });
+      sub(y, (t + "1L").c_str(), [&] { push(y, calculate_amu_1loop(x)); push(y, calculate_amu_2loop(x)); push(y, calculate_uncertainty_amu_2loop(x)); });
+      sub(y, (t + "1Lnr-again").c_str(), [&] { push(y, calculate_amu_1loop_non_tan_beta_resummed(x)); });
+   });
+   r.txt += deep(m).substr(deep(m).find("|P"));
+}
+inline void O12(int p, Res& r) {
+   GUARDED(
+      edge_calls(*shared_edge[p], r, "shared-");
+      MSSMNoFV_onshell c(*shared_edge[p]); edge_calls(c, r, "copy-");
+      if (deep(c) != deep(*shared_edge[p])) r.argchg += "copy of the shared model differs from it after evaluation; ";
+      MSSMNoFV_onshell f = mssm_edge(p); edge_calls(f, r, "fresh-");
+      if (deep(f) != deep(*shared_edge[p])) r.argchg += "freshly built model differs from the shared one after evaluation; ";
+   )
+}
+
 static const Op OPS[] = {
    {"O1_mssm_gm2calc_build_eval", O1, false},
    {"O2_thdm_build_eval", O2, false},
@@ -289,6 +342,7 @@ static const Op OPS[] = {
    {"O9_mssm_non_resummed_copy", O9, true},
    {"O10_thdm_sparse_build_eval", O10, false},
    {"O11_error_paths_nonfinite", O11, false},
+   {"O12_nonresummed_tachyon_window_shared", O12, true},
 };
 static const int NOPS = sizeof(OPS) / sizeof(OPS[0]);
 
@@ -301,6 +355,6 @@ inline void init_shared(const std::string& repo) {
    slha_text[2] = slha_text[0];
    for (size_t pos = 0; (pos = slha_text[2].find("Q= 1.00000000e+03", pos)) != std::string::npos; pos += 5) slha_text[2].replace(pos, 17, "Q= 2.00000000e+03");
    { size_t pos = slha_text[2].find("4.89499929e+02"); if (pos != std::string::npos) slha_text[2].replace(pos, 14, "4.70000000e+02"); }
-   for (int p = 0; p < 2; p++) { shared_mssm[p] = new MSSMNoFV_onshell(mssm_gm2calc(p)); shared_thdm[p] = new THDM(thdm_build(p)); }
+   for (int p = 0; p < 2; p++) { shared_mssm[p] = new MSSMNoFV_onshell(mssm_gm2calc(p)); shared_thdm[p] = new THDM(thdm_build(p)); shared_edge[p] = new MSSMNoFV_onshell(mssm_edge(p)); }
 }
 } // namespace ops
